@@ -52,6 +52,7 @@ static void first_diff (const char *a, const char *b, char *tag, size_t tl, char
   snprintf (msg, ml, "expected ...%.160s... got ...%.160s...", a + from, b + from);
 }
 
+static int with_giver;
 static void run_shape (const shape_t *sh, int variant, int leaf, long k, int mode, int measuring, unsigned ignore, result_t *res) {
   static char text[MAXTEXT];
   char name[300];
@@ -74,12 +75,21 @@ static void run_shape (const shape_t *sh, int variant, int leaf, long k, int mod
   add_ref (m, "harness");
   safe_apply_master_ob ("clear_errors", 0);
   if (!measuring) vx_obs ("%s", vm_ctx_desc);
+  if (with_giver) {
+    /* pass --giver=1: the evaluation is entered while a living P is this_player(); the fault hook (and the leaf
+     * destruct-entry-command-giver-then-error) destructs P right before the error */
+    vm_giver = hx_load ("/c05/pl", 0);
+    if (!vm_giver) { if (!measuring) vm_fail ("C05:harness:giver", "cannot load /c05/pl: %s", hx_last_error); return; }
+    add_ref (vm_giver, "harness");
+    command_giver = vm_giver;
+  }
   vm_snap_take (&s0);
   vm_ignore_fields = measuring ? ~0u : ignore; vm_changed_fields = 0;
   vm_hook_arm (k, mode, vw_ec_depth () + 1);
   svalue_t *r = hx_apply (m, variant ? "run_c" : "run_u", 0);
   vm_hook_disarm ();
   vm_snap_take (&s1);
+  if (with_giver) { command_giver = 0; }
   res->n = vm_insn;
   char rtext[400];
   snprintf (rtext, sizeof rtext, "%s", r ? hx_canon_s (r) : "ERROR");
@@ -88,6 +98,7 @@ static void run_shape (const shape_t *sh, int variant, int leaf, long k, int mod
   if (!measuring) vx_obs ("  -> %.300s%s%.200s  insns=%ld catches=%d/%d ctx=%d", rtext, r ? "" : " ", r ? "" : etext, vm_insn, vm_catch_err, vm_catch_seen, vm_fault_ctx);
 
   if (vm_selftest == 1 && vm_fired) s1.sp++;                        /* self-test: corrupt the observation */
+  if (vm_selftest == 11 && vm_fired) s1.sortd++;
   char scope[80];
   snprintf (scope, sizeof scope, "driver-entry:%s", vm_ctx_name ());
   vm_snap_diff (&s0, &s1, 0, 1, scope, vm_ctx_desc);
@@ -790,6 +801,7 @@ int main (int argc, char **argv) {
   if (!strcmp (ks, "core")) ks = CORE;
   if (!strcmp (ks, "mini")) ks = MINI;
   parse_set (ks, kindset, &nkindset, vm_nkinds, vm_kind_index);
+  with_giver = (int) vx_opt_long ("giver", 0);
   const char *part = vx_opt ("part", "inject");
   part_sites = !strcmp (part, "sites");
   if (!strcmp (vx_opt ("mode", "error"), "throw")) inj_mode = VM_INJ_THROW;
